@@ -451,6 +451,54 @@ func rulesC04(w *World, o *Out) {
 	// every attestation entry of the evm module goes through the wrapper or has no effects
 	// (checked by role: functions stored into / passed as the processAttestation slot)
 
+	// one gas estimate per validator: the refusing scan runs over the estimates already stored; and evidence may be
+	// re-submitted (the latest replaces the earlier one): the queue does not refuse a validator that already has an entry
+	qpk := "x/consensus/keeper/consensus"
+	refusals := func(f *ssa.Function) []*ssa.Call {
+		var out []*ssa.Call
+		for _, c := range CallsIn(f) {
+			if c.Fn != f || (c.Callee.Name != "Equals" && c.Callee.Name != "Equal") {
+				continue
+			}
+			call, isCall := c.Instr.(*ssa.Call)
+			if !isCall {
+				continue
+			}
+			blk := call.Block()
+			iff, isIf := blk.Instrs[len(blk.Instrs)-1].(*ssa.If)
+			if !isIf || canon(iff.Cond) != ssa.Value(call) {
+				continue
+			}
+			if ReachFromTop(f, blk.Succs[0], SuccessReturns(f), nil) == nil {
+				out = append(out, call)
+			}
+		}
+		return out
+	}
+	if age := w.MustFunc(o, qpk, "Queue", "AddGasEstimate"); age != nil {
+		o.Analysed(w.FuncKey(age))
+		rs := refusals(age)
+		okScan := false
+		for _, r := range rs {
+			for _, a := range r.Call.Args {
+				if fl.DependsOnCall(a, func(c Callee) bool { return c.Name == "GetGasEstimates" }) != nil {
+					okScan = true
+				}
+				x, _ := fl.Influence(a)
+				for ap := range x {
+					if strings.Contains(ap.Path, ".GasEstimates[]") {
+						okScan = true
+					}
+				}
+			}
+		}
+		o.Check("C04.R2", "AddGasEstimate|a validator's second estimate for a message is refused", okScan, w.Pos(age.Pos()), "the refusing comparison must run over msg.GetGasEstimates(); VerifyGasEstimates adds a validator's shares once per stored estimate, so duplicates let a minority reach the two-thirds gate and elect its own value")
+	}
+	if aev := w.MustFunc(o, qpk, "Queue", "AddEvidence"); aev != nil {
+		o.Analysed(w.FuncKey(aev))
+		rs := refusals(aev)
+		o.Check("C04.R3", "Queue.AddEvidence|re-submitted evidence is not refused", len(rs) == 0, w.Pos(aev.Pos()), "a validator is counted by its latest evidence (QueuedSignedMessage.AddEvidence replaces the proof); refusing a validator that already has an entry keeps it counted behind a proof it has withdrawn")
+	}
 	// ---- R5 ----------------------------------------------------------------------
 	med := FindCalls(vg, false, isCallee("util/palomath", "", "Median"))
 	o.Count("C04.R5 Median sites", len(med), 1)
